@@ -36,10 +36,10 @@ def check(ctx):
 
 
 MANIFEST = {
-    "technique": "static analysis: must-dataflow 'error recorded' on MIR of every extern \"C\" fn + resolved-callee / matched-variant kind table",
+    "technique": "static analysis: must-dataflow 'error recorded' on MIR of every extern \"C\" fn + resolved-callee / matched-variant kind table; delegation tables (collection verbs, codec / filter entry points, length getters)",
     "level": "Decides two necessary clauses of C17 on all 91 functions and all their paths: (a) whenever a function returns its failure sentinel an "
     "error message has been recorded (and every null-argument arm records one); (b) haystack_value_is_<k>/get_<k>_*/make_<k>* operate on variant "
-    "<K> and no other (a copy-paste slip compiles and the baseline has no C API tests). The behavioural remainder (call histories, value-level "
+    "<K> and no other (a copy-paste slip compiles and the baseline has no C API tests); (c) the codec and filter entry points wrap exactly the Rust API function they are documented to wrap, collection verbs perform that operation of the wrapped collection, and `*_len` is its len(). The behavioural remainder (call histories, value-level "
     "results) is out of reach of static analysis and is not claimed.",
     "note": "Partial claim (clauses). Trusted: rustc MIR; the sentinel table in rules/ffi.py (taken from the documented C API).",
 }
